@@ -51,6 +51,7 @@ var (
 
 var menuFull = []thing{tFile, tXFile, tFileB, tSymlink, tFifo, tRemove, tDir0, tDir, tDeep}
 var menuQuick = []thing{tFile, tXFile, tSymlink, tFifo, tDir0, tDir}
+var menuQuick5 = []thing{tXFile, tSymlink, tFifo, tDir}
 
 func tier() string {
 	if t := os.Getenv("MC_TIER"); t != "" {
@@ -238,9 +239,12 @@ func finalFormats(fail failFn, in *input) int {
 	return n
 }
 
-// finalVirtual: Tree-only and Tree-and-Directory format, without and with
-// decoys, through the real virtual build directory.
-func finalVirtual(fail failFn, in *input) int {
+func finalVirtual(fail failFn, in *input) int { return finalBackend(fail, in, runVirtual) }
+func finalNaive(fail failFn, in *input) int   { return finalBackend(fail, in, runNaive) }
+
+// finalBackend: Tree-only and Tree-and-Directory format, without and with
+// decoys, through a real BuildDirectory implementation.
+func finalBackend(fail failFn, in *input, run func(failFn, *input)) int {
 	failed := false
 	f := func(fp, format string, args ...any) { failed = true; fail(fp, format, args...) }
 	n := 0
@@ -248,7 +252,7 @@ func finalVirtual(fail failFn, in *input) int {
 		for _, decoys := range []bool{false, true} {
 			v := *in
 			v.format, v.decoys = format, decoys
-			runVirtual(f, &v)
+			run(f, &v)
 			n++
 			if failed {
 				return n
@@ -408,16 +412,26 @@ func TestMC(t *testing.T) {
 	for _, wd := range allWDs {
 		// quick: the working directories that resolve like another one
 		// (".", "a/..") and the deepest one get one op less.
-		qd := 5
+		qd, m := 5, menu
 		if wd == "." || wd == "a/.." || wd == "a/b" {
 			qd = 4
+		} else if quick {
+			m = menuQuick5
 		}
 		seqs = append(seqs, pathSeq(&pcfg{
-			name: "paths-wd-" + sanitize(wd), wd: wd, paths: allPaths, maxPaths: 3, menu: menu,
+			name: "paths-wd-" + sanitize(wd), wd: wd, paths: allPaths, maxPaths: 3, menu: m,
 			depth: map[string]int{"quick": qd, "thorough": 6},
 			final: finalDecoys,
 		}))
 	}
+
+	// 1b. Beyond the stated alphabet: several ".." from a nested working
+	// directory (back to the input root, and one step too far).
+	seqs = append(seqs, pathSeq(&pcfg{
+		name: "paths-updirs", wd: "a/b", paths: []string{"../..", "../../x", "../../..", "..", "x", "../../a/b/../../x/"}, maxPaths: 3, menu: menuQuick,
+		depth: map[string]int{"quick": 5, "thorough": 6},
+		final: finalDecoys,
+	}))
 
 	// 2. Produced hierarchies: every tree of <= N nodes over the slot
 	// grammar (nesting depth 3), all OutputDirectoryFormat values.
@@ -481,6 +495,16 @@ func TestMC(t *testing.T) {
 		name: "virtual-trees", slots: treeSlots(3, leaves, []string{"d", "e"}),
 		depth: map[string]int{"quick": 4, "thorough": 6},
 		final: finalVirtual, inputs: treeInputs,
+	}))
+
+	// 7. And through the real naiveBuildDirectory on a scratch directory of
+	// the local file system (kept small: every run does real system calls).
+	seqs = append(seqs, pathSeq(&pcfg{
+		name: "naive-paths", wd: "a", paths: []string{"x", "../x", "./x", "x/y", ".", "b//x"}, maxPaths: 2,
+		menu:  []thing{tFile, tXFile, tSymlink, tFifo, tDir, tDeep},
+		pres:  []*node{dirOf("a", dirOf("b", dirOf("k", newFile("K", true))))},
+		depth: map[string]int{"quick": 3, "thorough": 4},
+		final: finalNaive,
 	}))
 
 	mc.Main(t, nil, seqs)
